@@ -84,9 +84,20 @@ class Interp:
                     return ('none',)
                 if a['variant'] == 'Some':
                     return ('some', ops[0])
+                # a value of some other enum / struct (a classification made by a helper): only its variant and operands matter
+                return ('adt', a.get('variant_idx', 0), ops)
             raise Unknown('aggregate %s' % a.get('path', a['k']))
         if k == 'cast':
             return self.operand(rv['op'])
+        if k == 'discr':
+            v = self.place(rv['place'])
+            if isinstance(v, tuple) and v and v[0] == 'adt':
+                return v[1]
+            if isinstance(v, tuple) and v and v[0] == 'some':
+                return 1
+            if v == ('none',):
+                return 0
+            raise Unknown('discriminant of %r' % (v,))
         raise Unknown('rvalue ' + k)
 
     def compare(self, op, l, r):
